@@ -685,7 +685,7 @@ def check_no_parent_mutation(rep: Report, ctx: Any, rid: str) -> None:
     """property objects inherited from a referenced parent are shared: never mutated while composing a child (C15 / C02)"""
     ix = ctx.py
     pp = ix.func("model_property._process_properties")
-    funcs = _unique(region(ix, pp))
+    funcs = _unique(_with_record_methods(ix, region(ix, pp)))
     found = _find_allof_loop(pp, funcs)
     decision = _find_member_decision(found[1], found[2]) if found else None
     at = where(found[0], decision[0]) if found and decision else where(pp, pp.node)  # where the rule looks when there is nothing to report
@@ -1225,12 +1225,70 @@ def _own_nodes(fn: ast.AST) -> Iterator[ast.AST]:
             stack.extend(ast.iter_child_nodes(n))
 
 
+def _var_of(e: ast.AST | None) -> str | None:
+    """the variable an expression names: a name, or a field of the object a name holds (`state.by_name`: that object's mapping)"""
+    if isinstance(e, ast.Name):
+        return e.id
+    if isinstance(e, ast.Attribute) and isinstance(e.value, ast.Name):
+        return f"{e.value.id}.{e.attr}"
+    return None
+
+
+def _store_targets(n: ast.AST, own_locals: set[str]) -> set[str]:
+    """the mappings statement n stores into by `<mapping>[key] = value`, those that are not locals (or fields of locals) of the storing
+    function (own_locals), i.e. that outlive the call"""
+    if not isinstance(n, (ast.Assign, ast.AnnAssign, ast.AugAssign)):
+        return set()
+    tg = n.targets if isinstance(n, ast.Assign) else [n.target]
+    out = set()
+    for t in tg:
+        v = _var_of(t.value) if isinstance(t, ast.Subscript) else None
+        if v is not None and v.split(".", 1)[0] not in own_locals:
+            out.add(v)
+    return out
+
+
 def _is_store(n: ast.AST, own_locals: set[str]) -> bool:
     """`<mapping>[key] = value` into a mapping that is not a local of the storing function (own_locals), i.e. one that outlives the call"""
-    if not isinstance(n, (ast.Assign, ast.AnnAssign, ast.AugAssign)):
+    return bool(_store_targets(n, own_locals))
+
+
+def _receiver_classes(g: Any, name: str) -> set[str]:
+    """the classes (by name) variable `name` of function g is an instance of, as far as g says: the receiver of a method, a parameter
+    by its annotation, a local by the constructor it is bound from"""
+    out: set[str] = set()
+    a = g.node.args
+    pos = [*a.posonlyargs, *a.args]
+    if g.cls is not None and g.kind not in ("staticmethod", "classmethod") and pos and pos[0].arg == name:
+        out.add(g.cls.name)
+    for p_ in [*pos, *a.kwonlyargs]:
+        if p_.arg == name and p_.annotation is not None:
+            out.add(norm(p_.annotation).strip("'\"").rsplit(".", 1)[-1])
+    for v in Locals(g.node).values_of(name):
+        if isinstance(v, ast.Call):
+            out.add(call_name(v).rsplit(".", 1)[-1])
+    return out
+
+
+def _calls_fn(g: Any, c: ast.Call, h: Any) -> bool:
+    """call c, made in function g, calls h: a function by its name; a method by its name on an object of its class"""
+    if call_name(c).rsplit(".", 1)[-1] != h.name:
         return False
-    tg = n.targets if isinstance(n, ast.Assign) else [n.target]
-    return any(isinstance(t, ast.Subscript) and isinstance(t.value, ast.Name) and t.value.id not in own_locals for t in tg)
+    if h.cls is None or h.kind in ("staticmethod", "classmethod"):
+        return True
+    f = c.func
+    return isinstance(f, ast.Attribute) and isinstance(f.value, ast.Name) and h.cls.name in _receiver_classes(g, f.value.id)
+
+
+def _callees(g: Any, c: ast.Call, funcs: Iterable[Any]) -> list[Any]:
+    return [h for h in funcs if _calls_fn(g, c, h)]
+
+
+def _plain_call(h: Any, c: ast.Call) -> ast.Call:
+    """the call of a method written as the call of the function it is: the receiver is the first argument"""
+    if h.cls is not None and h.kind not in ("staticmethod", "classmethod") and isinstance(c.func, ast.Attribute):
+        return ast.Call(func=ast.Name(id=h.name, ctx=ast.Load()), args=[c.func.value, *c.args], keywords=c.keywords)
+    return c
 
 
 def _stores_outward(g: Any) -> bool:
@@ -1248,9 +1306,6 @@ class Aliases:
     def __init__(self, funcs: list[Any]) -> None:
         self.funcs = list({f.qual: f for f in funcs}.values())
         self.up: dict[tuple[str, str], tuple[str, str]] = {}
-        by_name: dict[str, list[Any]] = {}
-        for f in self.funcs:
-            by_name.setdefault(f.name, []).append(f)
         scope = {f.qual: self._bound_in(f) for f in self.funcs}
         for f in self.funcs:
             own = list(_own_nodes(f.node))
@@ -1268,22 +1323,33 @@ class Aliases:
             for n in own:
                 # arguments
                 if isinstance(n, ast.Call):
-                    for h in by_name.get(call_name(n).rsplit(".", 1)[-1], []):
-                        bound_args = _bind_args(h.node, n)
+                    for h in _callees(f, n, self.funcs):
+                        call = _plain_call(h, n)
+                        bound_args = _bind_args(h.node, call)
                         if bound_args is None:
                             pos = [a.arg for a in [*h.node.args.posonlyargs, *h.node.args.args]]
-                            bound_args = {**{pos[i]: a for i, a in enumerate(n.args) if i < len(pos) and not isinstance(a, ast.Starred)},
-                                          **{kw.arg: kw.value for kw in n.keywords if kw.arg}}
+                            bound_args = {**{pos[i]: a for i, a in enumerate(call.args) if i < len(pos) and not isinstance(a, ast.Starred)},
+                                          **{kw.arg: kw.value for kw in call.keywords if kw.arg}}
                         for p_, a in bound_args.items():
                             if isinstance(a, ast.Name):
                                 self._union((f.qual, a.id), (h.qual, p_))
                 # results
                 if isinstance(n, (ast.Assign, ast.AnnAssign)) and isinstance(n.value, ast.Call):
-                    for h in by_name.get(call_name(n.value).rsplit(".", 1)[-1], []):
+                    for h in _callees(f, n.value, self.funcs):
                         for r in _own_nodes(h.node):
                             if isinstance(r, ast.Return) and r.value is not None:
                                 for t in (n.targets if isinstance(n, ast.Assign) else [n.target]):
                                     self._unify(f.qual, t, h.qual, r.value)
+        # a field of one object is one variable, whatever the object is called where it is used
+        fields: dict[tuple[tuple[str, str], str], list[tuple[str, str]]] = {}
+        for f in self.funcs:
+            for n in _own_nodes(f.node):
+                if isinstance(n, ast.Attribute) and isinstance(n.value, ast.Name):
+                    self.up.setdefault((f.qual, n.value.id), (f.qual, n.value.id))
+                    fields.setdefault((self._find((f.qual, n.value.id)), n.attr), []).append((f.qual, f"{n.value.id}.{n.attr}"))
+        for same in fields.values():
+            for x in same[1:]:
+                self._union(same[0], x)
 
     @staticmethod
     def _bound_in(f: Any) -> set[str]:
@@ -1467,7 +1533,7 @@ def _promotions(pp: Any, reg: list[Any], f: Any, req_sets: set[str], cfgs: dict[
             continue
         if depth > 0:
             for h in reg:
-                if h.name == last and h.qual not in (f.qual, pp.qual):
+                if h.name == last and h.qual not in (f.qual, pp.qual) and (not isinstance(e, ast.Call) or _calls_fn(f, e, h)):
                     inner = [g for x, g in _promotions(pp, reg, h, req_sets, cfgs, depth - 1) if _value_is_used(h, cfg_of(h, cfgs), x)]
                     if inner:
                         out.append((e, any(inner) or _only_when_required(f, cfg, e, names)))
@@ -1573,7 +1639,7 @@ def _required_and_members(rep: Report, ctx: Any, cfgs: dict[str, CFG]) -> None:
                   where(g, node), lhs=norm(value), rhs=" or ".join(sorted(want)))
 
     pp = ix.func("model_property._process_properties")
-    reg = region(ix, pp)
+    reg = _with_record_methods(ix, region(ix, pp))
     nested = [h for h in ix.all_functions if h.parent is not None and _encloses(pp, h)]  # part of the region whatever they are called
     funcs = _unique(reg)
     _aliases(pp, reg + nested)
@@ -1614,10 +1680,10 @@ def _required_and_members(rep: Report, ctx: Any, cfgs: dict[str, CFG]) -> None:
               rhs=f"{norm(build_loop.iter)}.extend(<member>.properties...) on every inline path that has properties")
     # the required set reaches every property of the composed model: either each insertion consults it, or the final partition
     # promotes every property named in it (on a copy) before splitting into required / optional
-    storing = {g.name for g in funcs + nested if g is not pp and _stores_outward(g)}
-    storing |= {g.name for g in funcs if g is not pp and any(call_name(c).rsplit(".", 1)[-1] in storing for c in calls_in(g.node))}
+    storing = [g for g in funcs + nested if g is not pp and _stores_outward(g)]
+    storing += [g for g in funcs if g is not pp and g not in storing and any(_calls_fn(g, c, h) for c in calls_in(g.node) for h in storing)]
     adds: list[tuple[Any, ast.AST]] = [(g, n) for g in _unique([pp, *[m.f for m in loops], builder]) for n in _own_nodes(g.node) if
-                                       (isinstance(n, ast.Call) and call_name(n).rsplit(".", 1)[-1] in storing - {g.name}) or _is_store(n, set())]
+                                       (isinstance(n, ast.Call) and any(h is not g and _calls_fn(g, n, h) for h in storing)) or _is_store(n, set())]
     rep.require(adds, "the place where _process_properties (or a function it calls) stores a property of the composed model")
     rep.floor("property_insertions", len(adds), 1)
 
@@ -1816,7 +1882,7 @@ def _imports_of_every_property(rep: Report, ctx: Any, cfgs: dict[str, CFG]) -> N
     ix = ctx.py
     pp = ix.func("model_property._process_properties")
     nested = [h for h in ix.all_functions if h.parent is not None and _encloses(pp, h)]
-    funcs = list({f.qual: f for f in [*region(ix, pp), *nested]}.values())
+    funcs = list({f.qual: f for f in [*_with_record_methods(ix, region(ix, pp)), *nested]}.values())
     # roles: the result (the call that hands back the two property lists and the two import sets), the mapping every property of the
     # composed model is stored in, the two result lists - each as _process_properties calls them
     fields = list(ix.cls("_PropertyData").fields)
@@ -1834,8 +1900,7 @@ def _imports_of_every_property(rep: Report, ctx: Any, cfgs: dict[str, CFG]) -> N
         mine = local_names(g.node) if g.qual != pp.qual else set()
         for n in _own_nodes(g.node):
             if _is_store(n, mine):
-                tg = n.targets if isinstance(n, ast.Assign) else [n.target]  # type: ignore[attr-defined]
-                storage |= _in_caller(pp, g, {t.value.id for t in tg if isinstance(t, ast.Subscript) and isinstance(t.value, ast.Name)})
+                storage |= _in_caller(pp, g, _store_targets(n, mine))
     rep.require(storage, "the mapping the properties of the composed model are collected in")
 
     def seen_from_pp(g: Any, sources: set[str]) -> set[str]:
@@ -1845,8 +1910,8 @@ def _imports_of_every_property(rep: Report, ctx: Any, cfgs: dict[str, CFG]) -> N
         out = set(sources)
         for h in funcs:
             for c in calls_in(h.node):
-                if call_name(c).rsplit(".", 1)[-1] == g.name:
-                    bound = _bind_args(g.node, c) or {}
+                if _calls_fn(h, c, g):
+                    bound = _bind_args(g.node, _plain_call(g, c)) or {}
                     for p_, a in bound.items():
                         if p_ in sources:
                             out |= seen_from_pp(h, _unfiltered_sources(a, Locals(h.node))) if h.qual != g.qual else set()
@@ -1891,9 +1956,8 @@ def _python_names_compared(rep: Report, ctx: Any, cfgs: dict[str, CFG]) -> None:
     ix = ctx.py
     pp = ix.func("model_property._process_properties")
     nested = [h for h in ix.all_functions if h.parent is not None and _encloses(pp, h)]
-    funcs = list({f.qual: f for f in [*region(ix, pp), *nested]}.values())
+    funcs = list({f.qual: f for f in [*_with_record_methods(ix, region(ix, pp)), *nested]}.values())
     _aliases(pp, funcs)
-    by_name: dict[str, Any] = {f.name: f for f in funcs}
     # the mapping (as _process_properties calls it) and the statements that store into it
     stores: list[tuple[Any, ast.stmt]] = []
     storage: set[str] = set()
@@ -1901,20 +1965,18 @@ def _python_names_compared(rep: Report, ctx: Any, cfgs: dict[str, CFG]) -> None:
         mine = local_names(g.node) if g.qual != pp.qual else set()
         for n in _own_nodes(g.node):
             if _is_store(n, mine):
-                tg = n.targets if isinstance(n, ast.Assign) else [n.target]  # type: ignore[attr-defined]
-                storage |= _in_caller(pp, g, {t.value.id for t in tg if isinstance(t, ast.Subscript) and isinstance(t.value, ast.Name)})
+                storage |= _in_caller(pp, g, _store_targets(n, mine))
                 stores.append((g, n))  # type: ignore[arg-type]
     rep.require(stores and storage, "the mapping the properties of the composed model are collected in")
 
-    def compares_names(nodes: Iterable[ast.AST], depth: int = 1) -> bool:
-        """a comparison of python names is made by these nodes, or by a function of the region they call"""
+    def compares_names(g: Any, nodes: Iterable[ast.AST], depth: int = 1) -> bool:
+        """a comparison of python names is made by these nodes (of function g), or by a function of the region they call"""
         for n in nodes:
             for x in ast.walk(n):
                 if isinstance(x, ast.Compare) and any(isinstance(a, ast.Attribute) and a.attr == "python_name" for a in ast.walk(x)):
                     return True
                 if isinstance(x, ast.Call) and depth > 0:
-                    h = by_name.get(call_name(x).rsplit(".", 1)[-1])
-                    if h is not None and compares_names([h.node], depth - 1):
+                    if any(compares_names(h, [h.node], depth - 1) for h in _callees(g, x, funcs)):
                         return True
         return False
 
@@ -1925,16 +1987,15 @@ def _python_names_compared(rep: Report, ctx: Any, cfgs: dict[str, CFG]) -> None:
         lc = Locals(g.node)
         mapping = _seen_as(pp, g, storage)
         for n in _own_nodes(g.node):
-            if isinstance(n, (ast.For, ast.AsyncFor)) and _unfiltered_sources(n.iter, lc) & mapping and compares_names(n.body):
+            if isinstance(n, (ast.For, ast.AsyncFor)) and _unfiltered_sources(n.iter, lc) & mapping and compares_names(g, n.body):
                 out.append(n)
             elif isinstance(n, (ast.ListComp, ast.SetComp, ast.GeneratorExp, ast.DictComp)) and \
                     any(_unfiltered_sources(c.iter, lc) & mapping for c in n.generators):
                 st = stmt_of(g.node, n)
-                if st is not None and compares_names([n] + [x for x in walk_own(st) if isinstance(x, ast.Compare) and any(y is n for y in ast.walk(x))]):
+                if st is not None and compares_names(g, [n] + [x for x in walk_own(st) if isinstance(x, ast.Compare) and any(y is n for y in ast.walk(x))]):
                     out.append(st)
             elif isinstance(n, ast.Call) and depth > 0:
-                h = by_name.get(call_name(n).rsplit(".", 1)[-1])
-                if h is not None and h.qual != g.qual and checks(h, depth - 1):
+                if any(h.qual != g.qual and checks(h, depth - 1) for h in _callees(g, n, funcs)):
                     st = stmt_of(g.node, n)
                     if st is not None:
                         out.append(st)
@@ -1946,23 +2007,21 @@ def _python_names_compared(rep: Report, ctx: Any, cfgs: dict[str, CFG]) -> None:
         if any(c is not at and cfg_of(g, cfgs).is_dominated_by(at, lambda n, c=c: n is c) for c in cs):
             return []
         calls = [(h, stmt_of(h.node, c)) for h in funcs if h.qual != g.qual for c in _own_nodes(h.node)
-                 if isinstance(c, ast.Call) and call_name(c).rsplit(".", 1)[-1] == g.name]
+                 if isinstance(c, ast.Call) and _calls_fn(h, c, g)]
         if depth == 0 or not calls or g.qual == pp.qual:
             return [(g, at)]
         return [bad for h, st in calls if st is not None for bad in unchecked(h, st, depth - 1)] if not cs else [(g, at)]
 
-    n_checked = 0
     for g, st in stores:
         tg = st.targets if isinstance(st, ast.Assign) else [st.target]  # type: ignore[attr-defined]
         key = next((t.slice for t in tg if isinstance(t, ast.Subscript)), None)
         bad = unchecked(g, st)
-        n_checked += 0 if bad else 1
         rep.check(not bad, "R15.9", f"{g.name}::python-name-compared-before-store[{anon(key, local_names(g.node)) if key is not None else ''}]",
                   "a property is stored in the composed model on a path on which it has not been compared by python name with the properties "
                   "collected so far: a redefined (merged) or inherited property may take the python name of another member's property, which "
                   "then is neither accepted nor emitted by the composed class", where(*bad[0]) if bad else where(g, st),
                   lhs=[f"{h.name}: {norm(x)[:60]}" for h, x in bad], rhs="dominated by a comparison with every collected property's python_name")
-    rep.floor("stores_after_python_name_comparison", n_checked, 1)
+    rep.floor("stores_after_python_name_comparison", len(stores), 1)  # the stores that were judged (one that fails is a finding, not a missing anchor)
 
 
 # ======================================================================================================================
@@ -1972,9 +2031,10 @@ def _python_names_compared(rep: Report, ctx: Any, cfgs: dict[str, CFG]) -> None:
 _TYPED_SHAPES = {"type is a string": ("str", "list"), "type is a list": ("list", "str")}
 
 
-def _reachable_under(cfg: CFG, env: dict[str, bool], store: dict[str, ast.expr | None]) -> set[object]:
+def _reachable_under(cfg: CFG, env: dict[str, bool], store: dict[str, ast.expr | None], follow: Follow | None = None) -> set[object]:
     """the statements that can be executed when the given atoms have the given truth values (other atoms are free): a decision whose test
-    cannot have an outcome does not go that way, whatever the order or nesting of the decisions"""
+    cannot have an outcome does not go that way, whatever the order or nesting of the decisions.  `follow`: the functions whose call in a
+    test is decided by what they return under the same truth values"""
     seen: set[object] = {ENTRY}
     stack: list[object] = [ENTRY]
     while stack:
@@ -1983,7 +2043,7 @@ def _reachable_under(cfg: CFG, env: dict[str, bool], store: dict[str, ast.expr |
         if isinstance(n, ast.If):
             t_entry, f_entry = _arm_entries(cfg, n, True)
             if t_entry is not f_entry:
-                possible = _values_of_test(n.test, env, store)
+                possible = _values_of_test(n.test, env, store, follow)
                 closed = {id(e) for v, e in ((True, t_entry), (False, f_entry)) if v not in possible}
         for nx in cfg.succ.get(n, ()):
             if id(nx) not in closed and nx not in seen:
@@ -1992,60 +2052,115 @@ def _reachable_under(cfg: CFG, env: dict[str, bool], store: dict[str, ast.expr |
     return seen
 
 
+def _without_receiver(fn: ast.FunctionDef) -> ast.FunctionDef:
+    """the method as the function of its remaining parameters that `<receiver>.<method>(...)` calls"""
+    out = copy.copy(fn)
+    out.args = copy.copy(fn.args)
+    if fn.args.posonlyargs:
+        out.args.posonlyargs = fn.args.posonlyargs[1:]
+    else:
+        out.args.args = fn.args.args[1:]
+    return out
+
+
 def _composed_schema_stays_whole(rep: Report, ctx: Any, cfgs: dict[str, CFG]) -> None:
     ix = ctx.py
     sch = ix.cls("Schema")
-    n_moves = 0
+    # a method is judged together with the methods it calls on the same object: what such a method does happens where it is called (on
+    # the paths on which it is called), and what it answers decides the test that asks it.  The verdict belongs to the methods nothing
+    # else of the class calls - the validators pydantic runs.
+    methods = {}
     for m in sch.methods.values():
         pos = [*m.node.args.posonlyargs, *m.node.args.args]
-        if not pos or m.kind in ("staticmethod", "classmethod"):
-            continue
-        me = pos[0].arg
+        if pos and m.kind not in ("staticmethod", "classmethod"):
+            methods[m.name] = (m, pos[0].arg)
 
-        def of_me(t: ast.AST, me: str = me) -> bool:
-            return isinstance(t, ast.Attribute) and t.attr == "allOf" and isinstance(t.value, ast.Name) and t.value.id == me
+    def of_me(t: ast.AST, me: str) -> bool:
+        return isinstance(t, ast.Attribute) and t.attr == "allOf" and isinstance(t.value, ast.Name) and t.value.id == me
 
-        moves = []
-        for st in ast.walk(m.node):
+    def moves_of(m: Any, me: str) -> list[ast.stmt]:
+        moves: list[ast.stmt] = []
+        for st in _own_nodes(m.node):
             if isinstance(st, (ast.Assign, ast.AugAssign, ast.AnnAssign, ast.Delete)):
                 tg = st.targets if isinstance(st, (ast.Assign, ast.Delete)) else [st.target]
-                if any(of_me(x) for t in tg for x in ast.walk(t) if isinstance(getattr(x, "ctx", None), (ast.Store, ast.Del))):
+                if any(of_me(x, me) for t in tg for x in ast.walk(t) if isinstance(getattr(x, "ctx", None), (ast.Store, ast.Del))):
                     moves.append(st)
             elif isinstance(st, ast.Expr) and isinstance(st.value, ast.Call) and isinstance(st.value.func, ast.Attribute) and \
-                    st.value.func.attr in ("clear", "pop", "remove") and of_me(st.value.func.value):
+                    st.value.func.attr in ("clear", "pop", "remove") and of_me(st.value.func.value, me):
                 moves.append(st)
-        if not moves:
-            continue
-        n_moves += len(moves)
-        cfg = cfg_of(m, cfgs)
-        lc = Locals(m.node)
-        store: dict[str, ast.expr | None] = {n: ds[0][2] for n, ds in lc.defs.items()
-                                              if len(ds) == 1 and ds[0][0] == "assign" and isinstance(ds[0][2], ast.expr)}
-        taken = []
+        return moves
+
+    def own_calls(m: Any, me: str, node: ast.stmt | None = None) -> list[tuple[ast.Call, str]]:
+        """the calls `<me>.<method of the class>(...)` made by the method (by one of its statements)"""
+        nodes = _own_nodes(m.node) if node is None else walk_own(node)
+        return [(c, c.func.attr) for c in nodes if isinstance(c, ast.Call) and isinstance(c.func, ast.Attribute) and
+                isinstance(c.func.value, ast.Name) and c.func.value.id == me and c.func.attr in methods]
+
+    called = {h for m, me in methods.values() for _, h in own_calls(m, me) if h != m.name}
+    roots = [(m, me) for m, me in methods.values() if m.name not in called or m.decorators]
+
+    def shapes(m: Any, me: str, store: dict[str, ast.expr | None]) -> dict[str, dict[str, bool]]:
+        """the truth values of the tests on `<me>.type` for a schema whose type is a string / a list / absent"""
         type_tests = [r for c in calls_in(m.node) if call_name(c) == "isinstance" and len(c.args) == 2
                       for r in [_resolve(c, _State(store))] if isinstance(r, ast.Call) and norm(r.args[0]) == f"{me}.type"]
+        out: dict[str, dict[str, bool]] = {}
         for shape, (yes, no) in _TYPED_SHAPES.items():
             env = {f"isinstance({me}.type, {yes})": True, f"isinstance({me}.type, {no})": False, f"{me}.type is None": False,
                    f"{me}.type == None": False, f"{me}.type": True}
             for r in type_tests:  # whatever classes a test names, alone or in a tuple
                 env[norm(r)] = yes in {norm(t) for t in (r.args[1].elts if isinstance(r.args[1], ast.Tuple) else [r.args[1]])}
-            can = _reachable_under(cfg, env, store)
-            taken += [f"{shape}: {norm(st)[:50]}" for st in moves if st in can]
-        rep.check(not taken, "R15.8", f"Schema.{m.name}::allOf-stays-with-typed-schema",
-                  "a schema that has a `type` loses its allOf to a nested schema: the properties and `required` written next to the allOf are "
-                  "no longer part of the composition (they are silently dropped from the composed model)", where(m, moves[0]),
-                  lhs=taken, rhs="allOf is never moved away from its sibling keywords")
-        # the same question for a schema without `type`: the keywords written next to the allOf do not travel with it either
+            out[shape] = env
         env = {f"isinstance({me}.type, str)": False, f"isinstance({me}.type, list)": False, f"{me}.type is None": True,
                f"{me}.type == None": True, f"{me}.type": False}
         for r in type_tests:
             env[norm(r)] = False
-        can = _reachable_under(cfg, env, store)
-        untyped = [f"no type: {norm(st)[:50]}" for st in moves if st in can]
+        out["no type"] = env
+        return out
+
+    def taken(m: Any, me: str, shape: str | None, via: tuple[str, ...] = ()) -> list[tuple[Any, ast.stmt]]:
+        """the statements that take allOf away when the method runs for a schema of that shape (None: whatever the schema), in the method or
+        in a method it calls on the same object on such a path"""
+        cfg = cfg_of(m, cfgs)
+        lc = Locals(m.node)
+        store: dict[str, ast.expr | None] = {n: ds[0][2] for n, ds in lc.defs.items()
+                                              if len(ds) == 1 and ds[0][0] == "assign" and isinstance(ds[0][2], ast.expr)}
+        if shape is None:
+            can = set(cfg.reachable_from(ENTRY))
+        else:
+            env: dict[str, bool] = {}
+            asked: dict[str, ast.FunctionDef] = {}
+            for _, h in own_calls(m, me):  # a method that is asked in a test answers for a schema of the same shape
+                hm, hme = methods[h]
+                if h not in via and h != m.name and hme == me:
+                    asked[f"{me}.{h}"] = _without_receiver(hm.node)
+                    env.update(shapes(hm, hme, {})[shape])
+            env.update(shapes(m, me, store)[shape])
+            can = _reachable_under(cfg, env, store, Follow(test=asked))
+        out = [(m, st) for st in moves_of(m, me) if st in can]
+        for n in can:
+            for _, h in (own_calls(m, me, n) if isinstance(n, ast.stmt) else []):
+                if h not in via and h != m.name:
+                    out += taken(*methods[h], shape, (*via, m.name))
+        return out
+
+    n_moves = 0
+    for m, me in roots:
+        anywhere = taken(m, me, None)
+        if not anywhere:
+            continue
+        n_moves += len({id(st) for _, st in anywhere})
+        typed = [(f"{shape}: {norm(st)[:50]}", g, st) for shape in _TYPED_SHAPES for g, st in taken(m, me, shape)]
+        at = where(*anywhere[0])
+        rep.check(not typed, "R15.8", f"Schema.{m.name}::allOf-stays-with-typed-schema",
+                  "a schema that has a `type` loses its allOf to a nested schema: the properties and `required` written next to the allOf are "
+                  "no longer part of the composition (they are silently dropped from the composed model)", where(*typed[0][1:]) if typed else at,
+                  lhs=[t for t, _, _ in typed], rhs="allOf is never moved away from its sibling keywords")
+        # the same question for a schema without `type`: the keywords written next to the allOf do not travel with it either
+        untyped = [(f"no type: {norm(st)[:50]}", g, st) for g, st in taken(m, me, "no type")]
         rep.check(not untyped, "R15.8", f"Schema.{m.name}::allOf-stays-with-untyped-schema",
                   "a schema without `type` loses its allOf to a nested schema while `properties` / `required` written next to the allOf "
-                  "stay behind on the outer schema: they are silently dropped from the composed model", where(m, moves[0]),
-                  lhs=untyped, rhs="allOf is never moved away from its sibling keywords")
+                  "stay behind on the outer schema: they are silently dropped from the composed model", where(*untyped[0][1:]) if untyped else at,
+                  lhs=[t for t, _, _ in untyped], rhs="allOf is never moved away from its sibling keywords")
     rep.floor("allOf_moved_by_schema_validators", n_moves, 1)
 
 
@@ -2089,32 +2204,229 @@ def _sep_anchored(e: ast.AST | None, fn: ast.AST) -> bool:
     return False
 
 
+def _with_record_methods(ix: Any, reg: list[Any]) -> list[Any]:
+    """the functions of a region plus the methods of the private classes of their module that they make instances of (a record that
+    carries part of the function's state together with the code that works on it is part of the function, like a private helper)"""
+    out = list(reg)
+    seen = {f.qual for f in out}
+    frontier = list(reg)
+    for _ in range(2):
+        nxt = []
+        for g in frontier:
+            for c in calls_in(g.node):
+                name = call_name(c)
+                r = ix.resolve(g.module, name) if name.startswith("_") and "." not in name else None
+                if r and r[0] == "class" and r[1].module is g.module:
+                    for m in r[1].methods.values():
+                        if m.qual not in seen:
+                            seen.add(m.qual)
+                            out.append(m)
+                            nxt.append(m)
+        frontier = nxt
+    return out
+
+
+def _held(e: ast.expr, fn: ast.AST, keep: set[str], depth: int = 3) -> ast.expr:
+    """e with the locals of fn that are bound once, by an assignment, replaced by what they are bound to (`keep`: names that stay)"""
+    lc = Locals(fn)
+    own = {n: [d for d in ds if not isinstance(d[1], ast.comprehension)] for n, ds in lc.defs.items()}  # a comprehension's variable is its own
+    store: dict[str, ast.expr | None] = {n: ds[0][2] for n, ds in own.items() if n not in keep and len(ds) == 1 and ds[0][0] == "assign"
+                                          and isinstance(ds[0][2], ast.expr)}
+    for _ in range(depth):
+        if not (names_in(e) & set(store)):
+            break
+        e = _Subst(store).visit(copy.deepcopy(e))
+    return e
+
+
+_UNK = object()
+_PARENT_LISTS = ("required_properties", "optional_properties")
+
+
+def _concrete(e: ast.AST, attrs: dict[str, Any]) -> Any:
+    """the value of an expression over `<x>.required_properties` / `<x>.optional_properties` when these hold the given values (None, an
+    empty list, a list with something in it); _UNK when it depends on anything else.  Elements of collections are opaque."""
+    def truth(x: ast.AST) -> bool | None:
+        return _truth3(x, attrs)
+
+    if isinstance(e, ast.Attribute) and e.attr in attrs:
+        return attrs[e.attr]
+    if isinstance(e, ast.Constant):
+        return e.value
+    if isinstance(e, ast.NamedExpr):
+        return _concrete(e.value, attrs)
+    if isinstance(e, (ast.List, ast.Tuple, ast.Set)):
+        out: list[Any] = []
+        for x in e.elts:
+            if isinstance(x, ast.Starred):
+                v = _concrete(x.value, attrs)
+                if v is _UNK or v is None or not isinstance(v, (list, tuple)):
+                    return _UNK
+                out += list(v)
+            else:
+                out.append(object())
+        return tuple(out) if isinstance(e, ast.Tuple) else out
+    if isinstance(e, ast.BoolOp):
+        is_and = isinstance(e.op, ast.And)
+        for x in e.values[:-1]:
+            t = truth(x)
+            if t is None:
+                return _UNK
+            if t != is_and:
+                return _concrete(x, attrs)
+        return _concrete(e.values[-1], attrs)
+    if isinstance(e, ast.UnaryOp) and isinstance(e.op, ast.Not):
+        t = truth(e.operand)
+        return _UNK if t is None else not t
+    if isinstance(e, ast.IfExp):
+        t = truth(e.test)
+        return _UNK if t is None else _concrete(e.body if t else e.orelse, attrs)
+    if isinstance(e, ast.BinOp) and isinstance(e.op, ast.Add):
+        a, b = _concrete(e.left, attrs), _concrete(e.right, attrs)
+        if isinstance(a, (list, tuple)) and isinstance(b, (list, tuple)):
+            return list(a) + list(b)
+        return _UNK
+    if isinstance(e, ast.Compare) and len(e.ops) == 1:
+        a, b = _concrete(e.left, attrs), _concrete(e.comparators[0], attrs)
+        if a is _UNK or b is _UNK:
+            return _UNK
+        op = e.ops[0]
+        try:
+            if isinstance(op, (ast.Is, ast.IsNot)):
+                if a is None or b is None:
+                    return (a is b) == isinstance(op, ast.Is)
+                return _UNK
+            if isinstance(op, (ast.Eq, ast.NotEq)):
+                if any(isinstance(x, (list, tuple)) and x for x in (a, b)) and type(a) is type(b):
+                    return _UNK  # opaque elements
+                return (a == b) == isinstance(op, ast.Eq)
+            if isinstance(op, (ast.Lt, ast.LtE, ast.Gt, ast.GtE)) and all(isinstance(x, (int, float)) for x in (a, b)):
+                return {ast.Lt: a < b, ast.LtE: a <= b, ast.Gt: a > b, ast.GtE: a >= b}[type(op)]
+        except Exception:
+            return _UNK
+        return _UNK
+    if isinstance(e, ast.Call) and not e.keywords:
+        fn = call_name(e).rsplit(".", 1)[-1]
+        args = [_concrete(a, attrs) for a in e.args if not isinstance(a, ast.Starred)]
+        if len(args) != len(e.args):
+            return _UNK
+        if fn == "isinstance" and len(args) == 2 and args[0] is not _UNK:
+            classes = {norm(t).rsplit(".", 1)[-1] for t in (e.args[1].elts if isinstance(e.args[1], ast.Tuple) else [e.args[1]])}
+            known = {"list": list, "tuple": tuple, "type(None)": type(None), "NoneType": type(None)}
+            if any(c in known and isinstance(args[0], known[c]) for c in classes):
+                return True
+            if args[0] is None or classes <= set(known):
+                return False  # None is an instance of nothing else a test would name
+            return _UNK
+        if any(a is _UNK for a in args):
+            return _UNK
+        try:
+            if fn == "len" and len(args) == 1:
+                return len(args[0])
+            if fn == "bool" and len(args) == 1:
+                return bool(args[0])
+            if fn in ("list", "tuple", "sorted", "set", "frozenset", "reversed") and len(args) == 1:
+                return list(args[0])
+            if fn in ("chain", "from_iterable"):
+                return [x for a in (args[0] if fn == "from_iterable" else args) for x in a]
+        except TypeError:
+            return _UNK  # len(None), list(None): the code would raise there; not this function's question
+    return _UNK
+
+
+def _truth3(e: ast.AST, attrs: dict[str, Any]) -> bool | None:
+    """the truth value of the expression under the given values of the two lists (None: it depends on something else)"""
+    if isinstance(e, ast.BoolOp):
+        ts = [_truth3(x, attrs) for x in e.values]
+        if isinstance(e.op, ast.And):
+            return False if any(t is False for t in ts) else True if all(t is True for t in ts) else None
+        return True if any(t is True for t in ts) else False if all(t is False for t in ts) else None
+    if isinstance(e, ast.UnaryOp) and isinstance(e.op, ast.Not):
+        t = _truth3(e.operand, attrs)
+        return None if t is None else not t
+    v = _concrete(e, attrs)
+    return None if v is _UNK else bool(v)
+
+
+def _inlined(e: ast.expr, g: Any, reg: list[Any], depth: int = 2) -> ast.expr:
+    """e with the locals of g replaced by what they hold and the call of a function of the region that consists of one `return` replaced
+    by what it returns for these arguments (a predicate that was given a name)"""
+    e = _held(e, g.node, set())
+    if depth == 0:
+        return e
+
+    class Inline(ast.NodeTransformer):
+        def visit_Call(self, c: ast.Call) -> ast.AST:
+            self.generic_visit(c)
+            last = call_name(c).rsplit(".", 1)[-1]
+            for h in reg:
+                if h.name != last or h.qual == g.qual:
+                    continue
+                rets = [r for r in _own_nodes(h.node) if isinstance(r, ast.Return)]
+                if len(rets) != 1 or rets[0].value is None:
+                    continue
+                fn, call = h.node, c
+                if h.cls is not None and h.kind not in ("staticmethod", "classmethod") and isinstance(c.func, ast.Attribute):
+                    fn = h.node  # <receiver>.<method>(...): the receiver is the first parameter
+                    call = ast.Call(func=ast.Name(id=last, ctx=ast.Load()), args=[c.func.value, *c.args], keywords=c.keywords)
+                bound = _bind_args(fn, call)
+                if bound is not None:
+                    return _Subst(bound).visit(copy.deepcopy(_inlined(rets[0].value, h, reg, depth - 1)))  # type: ignore[arg-type]
+            return c
+
+    return Inline().visit(copy.deepcopy(e))
+
+
 def _parents_first(rep: Report, ctx: Any, cfgs: dict[str, CFG]) -> None:
     ix = ctx.py
     pm = ix.func("properties._process_models")
-    reg = region(ix, pm)
+    reg = _with_record_methods(ix, region(ix, pm))
     helpers = {g.name: g for g in reg if g is not pm}
     cfg = cfg_of(pm, cfgs)
     # roles: the work list is what the loop calling process_model iterates; the next round is what is assigned to it at the end of a
-    # pass; a recorded error is a (model, error) tuple appended to a list whose contents reach _process_model_errors
+    # pass, computed from a list the model is put into during the pass (that list itself, or the models of the records in it); a recorded
+    # error is something that holds the model and the outcome of process_model (a tuple, a record) appended to a list whose contents
+    # reach _process_model_errors
     ploops = [n for n in ast.walk(pm.node) if isinstance(n, ast.For) and any(call_name(c) == "process_model" for c in calls_in(n))]
     rep.require(ploops, "loop calling process_model")
     pl = ploops[0]
     model, work = norm(pl.target), norm(pl.iter)
-    nxt = {norm(a.value) for a in ast.walk(pm.node) if isinstance(a, ast.Assign) and norm(a.targets[0]) == work and isinstance(a.value, ast.Name)}
     rounds = [w for w in ast.walk(pm.node) if isinstance(w, ast.While) and any(x is pl for x in ast.walk(w))]
     rep.require(rounds, "the loop that repeats the pass over the models")
     reset_each_round = {t.id for w in rounds for a in ast.walk(w) if isinstance(a, (ast.Assign, ast.AnnAssign)) for t in
                         (a.targets if isinstance(a, ast.Assign) else [a.target]) if isinstance(t, ast.Name)}
-    requeues = [c for r, c in receivers(pl, "append", lambda a: a == model) if r in nxt]
-    records = [(r, c) for r, c in receivers(pl, "append", lambda a: a.startswith(f"({model},"))]
+    lc = Locals(pm.node)
+    outcomes = set(lc.bound_from(lambda v: v.startswith("process_model("), "assign"))
+    puts = [(r, c, _held(c.args[0], pm.node, outcomes | {model})) for r, c in receivers(pl, "append") if len(c.args) == 1]
+    puts = [(r, c, x) for r, c, x in puts if model in names_in(x)]  # what is put there holds the model
+
+    def resets(n: object, lst: str) -> bool:
+        if isinstance(n, (ast.Assign, ast.AnnAssign)) and n.value is not None:
+            tg = n.targets if isinstance(n, ast.Assign) else [n.target]
+            if any(norm(t) == lst for t in tg) and lst not in names_in(n.value):
+                return True  # bound to something that does not contain what it held
+            return any(isinstance(t, ast.Subscript) and norm(t.value) == lst and isinstance(t.slice, ast.Slice) and
+                       t.slice.lower is None and t.slice.upper is None for t in tg) and isinstance(n.value, (ast.List, ast.Tuple)) and not n.value.elts
+        if isinstance(n, ast.Expr) and isinstance(n.value, ast.Call) and isinstance(n.value.func, ast.Attribute):
+            return n.value.func.attr == "clear" and norm(n.value.func.value) == lst
+        if isinstance(n, ast.Delete):
+            return any(isinstance(t, ast.Subscript) and norm(t.value) == lst for t in n.targets)
+        return False
+
+    # the lists the next round is made of: assigned to the work list after the pass, while they still hold what the pass put there
+    nxt: set[str] = set()
+    for a in ast.walk(pm.node):
+        if isinstance(a, ast.Assign) and norm(a.targets[0]) == work and not any(x is a for x in ast.walk(pl)):
+            for r in {r for r, _, _ in puts} & names_in(a.value):
+                if a in cfg.reachable_from(pl, avoid=lambda n, r=r: resets(n, r)):
+                    nxt.add(r)
+    requeues = [c for r, c, _ in puts if r in nxt]
+    records = [(r, c) for r, c, x in puts if names_in(x) & outcomes]
     sink = [c for c in calls_in(pm.node) if call_name(c) == "_process_model_errors"]
     rep.require(sink, "call of _process_model_errors")
     feeds = _flows_into(pm.node, {x for c in sink for a in c.args for x in names_in(a)})
     recorded = {r for r, _ in records}
     # every model of a round is accounted for: processed (the schemas it produced are kept), queued for the next round, or reported
-    lc = Locals(pm.node)
-    outcomes = set(lc.bound_from(lambda v: v.startswith("process_model("), "assign"))
     kept = [a for a in ast.walk(pl) if isinstance(a, ast.Assign) and isinstance(a.value, ast.Name) and a.value.id in outcomes and norm(a.targets[0]) == "schemas"]
     req_st = [stmt_of(pm.node, c) for c in requeues]
     final_st = [stmt_of(pm.node, c) for r, c in records if r in feeds and r not in reset_each_round]
@@ -2123,7 +2435,7 @@ def _parents_first(rep: Report, ctx: Any, cfgs: dict[str, CFG]) -> None:
     rep.check(bool(requeues) and bool(recorded) and recorded <= feeds and every, "R15.4", "_process_models::requeue",
               "a model whose parent is not processed yet is not re-queued (or its error of the last round is not reported)", where(pm, pl),
               lhs={"requeue": [norm(c) for c in requeues], "recorded_in": sorted(recorded), "reported": sorted(feeds), "every_model_accounted_for": every},
-              rhs="<next round>.append(<model>) and (<model>, <error>) recorded in a list that reaches _process_model_errors, on every path")
+              rhs="<model> put into what the next round is made of and <model> with its error recorded in a list that reaches _process_model_errors, on every path")
 
     # an error recorded for a model that is also queued for the next round is provisional: the next round decides anew.  The list it is
     # recorded in starts every round empty (else a model that succeeds when it is retried is still reported - and removed), and is not
@@ -2137,24 +2449,11 @@ def _parents_first(rep: Report, ctx: Any, cfgs: dict[str, CFG]) -> None:
         for st in [stmt_of(pm.node, c)] for q in req_st)})
     stale, lost = [], []
     for lst in provisional:
-        def resets(n: object, lst: str = lst) -> bool:
-            if isinstance(n, (ast.Assign, ast.AnnAssign)) and n.value is not None:
-                tg = n.targets if isinstance(n, ast.Assign) else [n.target]
-                if any(norm(t) == lst for t in tg) and lst not in names_in(n.value):
-                    return True  # bound to something that does not contain what it held
-                return any(isinstance(t, ast.Subscript) and norm(t.value) == lst and isinstance(t.slice, ast.Slice) and
-                           t.slice.lower is None and t.slice.upper is None for t in tg) and isinstance(n.value, (ast.List, ast.Tuple)) and not n.value.elts
-            if isinstance(n, ast.Expr) and isinstance(n.value, ast.Call) and isinstance(n.value.func, ast.Attribute):
-                return n.value.func.attr == "clear" and norm(n.value.func.value) == lst
-            if isinstance(n, ast.Delete):
-                return any(isinstance(t, ast.Subscript) and norm(t.value) == lst for t in n.targets)
-            return False
-
         for e_ in round_ends:
-            if not resets(e_) and pl in cfg.reachable_from(e_) and not cfg.every_path_passes(e_, pl, resets):
+            if not resets(e_, lst) and pl in cfg.reachable_from(e_) and not cfg.every_path_passes(e_, pl, lambda n, lst=lst: resets(n, lst)):
                 stale.append(lst)
             after_last = cfg.reachable_from(e_, avoid=lambda n: n is pl)
-            if any(resets(n) and any(s_ in cfg.reachable_from(n, avoid=lambda m: m is pl) for s_ in sink_st) for n in after_last):
+            if any(resets(n, lst) and any(s_ in cfg.reachable_from(n, avoid=lambda m: m is pl) for s_ in sink_st) for n in after_last):
                 lost.append(lst)
     rep.check(not stale and not lost, "R15.4", "_process_models::retried-model-error-is-provisional",
               "the error of a model that is queued for another round is kept beyond that round (the list it is recorded in is not emptied on "
@@ -2196,25 +2495,46 @@ def _parents_first(rep: Report, ctx: Any, cfgs: dict[str, CFG]) -> None:
             rep.check(_sep_anchored(a, g.node), "R15.4", "_process_models::self-reference-test-anchored",
                       "self reference is detected by a bare name suffix: a child whose name is a suffix of its parent's is never retried",
                       where(g, n), lhs=norm(n)[:80], rhs="endswith(f\"/{name}\")")
-    # a parent that is not processed yet is an error of the child (which is what sends it into the next round)
+    # a parent that is not processed yet is an error of the child (which is what sends it into the next round) - and only such a parent:
+    # the decision is whatever test, read with what its locals hold, looks at the two property lists of the parent and has an outcome
+    # that ends in an error.  It is evaluated for the lists as they can be: None before the parent is processed, lists - empty ones
+    # too - afterwards.
     pp = ix.func("model_property._process_properties")
-    found, reported = False, True
-    for g in region(ix, pp):
+    preg = _with_record_methods(ix, region(ix, pp))
+    unprocessed = {a: None for a in _PARENT_LISTS}
+    processed = [dict(zip(_PARENT_LISTS, v)) for v in itertools.product([[], [object()]], repeat=2)]
+    found, reported, refused = False, False, []
+    at = where(pp, pp.node)
+    for g in _unique(preg):
         gcfg = cfg_of(g, cfgs)
-        for s in ast.walk(g.node):
-            if isinstance(s, ast.If) and any(isinstance(a, ast.Attribute) and a.attr in ("required_properties", "optional_properties") for a in ast.walk(s.test)):
-                found = True
-                # where control goes when the lists are not there yet: every isinstance(<...>_properties, list) is false
-                for v in _values_of_test(s.test, {norm(c): False for c in calls_in(s.test) if call_name(c) == "isinstance"}):
-                    entry, _ = _arm_entries(gcfg, s, v)
-                    is_err = lambda n: isinstance(n, ast.Return) and constructs_error(n.value)  # noqa: E731
-                    reported = reported and (is_err(entry) or EXIT not in gcfg.reachable_from(entry, avoid=is_err))
-    rep.require(found, "the test whether a referenced parent has been processed (required_properties / optional_properties are lists)")
-    rep.check(reported, "R15.4", "_process_properties::unprocessed-parent-error", "a not-yet-processed parent is not reported (so never retried)",
-              where(pp, pp.node))
+        for s in _own_nodes(g.node):
+            if not isinstance(s, ast.If):
+                continue
+            test = _inlined(s.test, g, preg)
+            if not any(isinstance(a, ast.Attribute) and a.attr in _PARENT_LISTS for a in ast.walk(test)):
+                continue
+            is_err = lambda n: isinstance(n, ast.Return) and constructs_error(n.value)  # noqa: E731
+            err_on = [v for v in (True, False) for entry in [_arm_entries(gcfg, s, v)[0]]
+                      if is_err(entry) or EXIT not in gcfg.reachable_from(entry, avoid=is_err)]
+            if len(err_on) != 1:
+                continue
+            found = True
+            at = where(g, s)
+            reported = reported or _truth3(test, unprocessed) is err_on[0]
+            refused += [f"{norm(test)[:80]} when the lists are {sorted((k, len(v)) for k, v in sc.items())}" for sc in processed
+                        if _truth3(test, sc) is err_on[0]]
+    rep.require(found, "the test whether a referenced parent has been processed (decides on required_properties / optional_properties, one outcome is an error)")
+    rep.check(reported, "R15.4", "_process_properties::unprocessed-parent-error", "a not-yet-processed parent is not reported (so never retried)", at)
+    rep.check(not refused, "R15.4", "_process_properties::processed-parent-accepted",
+              "a parent that has been processed is taken for one that has not (its property lists are there, but the test asks for more - "
+              "for something in them): a child of a parent without properties of its own is sent into the next round again and again, "
+              "and in the end reported and removed with everything composed from it", at, lhs=refused[:3],
+              rhs="`not processed yet` holds only while the lists are None")
 
 
-def _values_of_test(test: ast.expr, env: dict[str, bool], store: dict[str, ast.expr | None] | None = None) -> set[bool]:
-    """the truth values a test can take when the given atoms have the given values (other atoms are free; `store`: what locals hold)"""
-    ex = SymExec(ast.parse("def _():\n    pass").body[0], env)  # type: ignore[arg-type]
+def _values_of_test(test: ast.expr, env: dict[str, bool], store: dict[str, ast.expr | None] | None = None,
+                    follow: Follow | None = None) -> set[bool]:
+    """the truth values a test can take when the given atoms have the given values (other atoms are free; `store`: what locals hold;
+    `follow`: predicates that are decided by executing them under the same values)"""
+    ex = SymExec(ast.parse("def _():\n    pass").body[0], env, follow)  # type: ignore[arg-type]
     return {v for v, _ in ex._truth(test, _State(store))}
